@@ -192,7 +192,7 @@ Definition judge1h (h : hcase) : verdict :=
    argparse tests the raw strings; the setting otherwise inside the guard); 6 anything else. *)
 (* true: the tree as it is; false once fixes/C05-typed-choices-raw-argv.patch has landed in /repo (then also drop class 9
    from FINDING_CLASSES and turn the open: line into fixed:) *)
-Definition raw_choices_checked : bool := true.
+Definition raw_choices_checked : bool := false.  (* repaired in /repo 1307907: typed choices are tested on the adapted value *)
 
 Record pcase := {
   p_fun : pfun; p_nargs : nargs; p_choices : list val;
